@@ -780,6 +780,10 @@ fn select_doc(trivia: &Trivia, sources: &Option<Vec<Chain>>) -> Doc {
     if let Some(shorthand) = select_shorthand(chains) {
         return pretty::text(shorthand);
     }
+    // An empty source list has nothing to break at.
+    if chains.is_empty() {
+        return pretty::text("! []");
+    }
     bracketed(
         "! [".to_string(),
         "]",
